@@ -2,6 +2,8 @@
 
 package spec
 
+import "encoding/json"
+
 // Lemma functions for the deductive verification in /verif: each composes calls
 // of the real API; the verifier sees the callees only through their contracts
 // (verif_contracts.go), so a postcondition proved here is a lemma over those
@@ -500,4 +502,40 @@ func verifLemmaTagLookup(t Tag, token string) (interface{}, error, []byte) {
 		return nil, nil, nil
 	}
 	return v, err, b
+}
+
+func verifLemmaSwaggerRoundTrip(data []byte) []byte {
+	var v Swagger
+	if err := v.UnmarshalJSON(data); err != nil {
+		return nil
+	}
+	out, err := v.MarshalJSON()
+	if err != nil {
+		return nil
+	}
+	return out
+}
+
+func verifLemmaExternalDocsRoundTrip(data []byte) []byte {
+	var v ExternalDocumentation
+	if err := json.Unmarshal(data, &v); err != nil {
+		return nil
+	}
+	out, err := json.Marshal(v)
+	if err != nil {
+		return nil
+	}
+	return out
+}
+
+func verifLemmaXMLObjectRoundTrip(data []byte) []byte {
+	var v XMLObject
+	if err := json.Unmarshal(data, &v); err != nil {
+		return nil
+	}
+	out, err := json.Marshal(v)
+	if err != nil {
+		return nil
+	}
+	return out
 }
